@@ -332,6 +332,10 @@ class Module:
         with open(path, 'rb') as f:
             self.source = f.read()
         self.tree = ast.parse(self.source, filename=path)
+        if not external:
+            # the normal form of sa/normalize.py: temporaries consumed by the next statement are written back into it
+            from .normalize import normalize_module
+            self.tree = normalize_module(self.tree, path)
         self.bindings = {}            # name -> ('import', modname) | ('from', modname, sym) | ('class', ClassInfo) | ('func', FuncInfo) | ('var', node)
         self.classes = {}
         self.functions = {}
